@@ -107,10 +107,12 @@ class TapeRecorder(object):
         """
         Discards currently active recording process
         """
-        if self._active_recording is not None:
+        # Use a local reference, the recording may be discarded by another thread at the same time
+        recording = self._active_recording
+        if recording is not None:
             _logger.info(
-                u'Recording with id {} was discarded'.format(self._active_recording.id))
-            self.tape_cassette.abort_recording(self._active_recording)
+                u'Recording with id {} was discarded'.format(recording.id))
+            self.tape_cassette.abort_recording(recording)
             self._reset_active_recording()
 
     def force_sample_recording(self):
@@ -225,11 +227,12 @@ class TapeRecorder(object):
             self._playback_outputs.append(Output(interception_key, value))
             return
 
-        # Recording is discarded
-        if self._active_recording is None:
+        # Recording is discarded (use a local reference, it may be discarded by another thread at any time)
+        recording = self._active_recording
+        if recording is None:
             return
 
-        self._record_data(interception_key, value)
+        recording[interception_key] = value
 
     def enable_recording(self):
         """
@@ -840,10 +843,19 @@ class TapeRecorder(object):
             try:
                 result = func(*args, **kwargs)
             except Exception as ex:
-                if interception_key is not None:
+                # The recording may have been discarded while the intercepted function was running
+                recording = self._active_recording
+                if interception_key is not None and recording is not None:
                     # Record exception marking it as exception so we know to throw on playback
-                    self._record_data(interception_key, {'exception': ex})
+                    recording[interception_key] = {'exception': ex}
                 raise
+
+        # The recording may have been discarded while the intercepted function was running (by the function itself or
+        # by another thread), in that case there is nothing to record and the result is returned as is
+        recording = self._active_recording
+        recording_parameters = self._active_recording_parameters
+        if recording is None or recording_parameters is None:
+            return result
 
         if interception_key is not None:
             try:
@@ -858,7 +870,7 @@ class TapeRecorder(object):
                 self.discard_recording()
                 return result
 
-            if self._active_recording_parameters.copy_data_on_intercepion:
+            if recording_parameters.copy_data_on_intercepion:
                 try:
                     recorded_result = pickle_copy(recorded_result)
                 except Exception as ex:
@@ -866,7 +878,7 @@ class TapeRecorder(object):
                         type(recorded_result), repr(ex)))
 
             # Record result
-            self._record_data(interception_key, {'value': recorded_result})
+            recording[interception_key] = {'value': recorded_result}
 
         return result
 
